@@ -16,6 +16,7 @@ import MD.Model.PavaArr
 import MD.Model.GpavaArr
 import MD.Model.Names
 import MD.Model.IsoStore
+import MD.Model.Series
 /-! JSON-lines driver: one request per line on stdin, one response per line on stdout. -/
 open Lean MD
 
@@ -236,6 +237,28 @@ def handle (j : Json) : Except String Json := do
     let (s1, x, r) := MD.Own.isoMeanStore true s0 0 1 inc
     pure (Json.mkObj [("x", ratsToJson x), ("r", natsToJson r),
       ("y_after", ratsToJson (MD.Own.getVec s1 0)), ("w_after", ratsToJson (MD.Own.getVec s1 1))])
+  | "series" =>
+    -- list -> polars column: elements [kind, value] with kind none | pyInt | pyFloat | npInt | npFloat
+    let elems ← match j.getObjVal? "elems" with
+      | .ok (.arr a) => a.toList.mapM (fun e => match e with
+          | .arr #[.str "none", _] => pure MD.Ser.Elem.none
+          | .arr #[.str k, v] => match ratOfJson? v with
+            | some q => match k with
+              | "pyInt" => pure (MD.Ser.Elem.pyInt q.num) | "npInt" => pure (MD.Ser.Elem.npInt q.num)
+              | "pyFloat" => pure (MD.Ser.Elem.pyFloat q) | "npFloat" => pure (MD.Ser.Elem.npFloat q)
+              | _ => throw s!"bad kind {k}"
+            | none => throw "bad value"
+          | _ => throw "bad element")
+      | _ => throw "missing elems"
+    let colJson (c : MD.Ser.Col) : Json := match c with
+      | .null n => Json.mkObj [("dtype", .str "null"), ("values", .arr (List.replicate n Json.null).toArray)]
+      | .int v => Json.mkObj [("dtype", .str "int"), ("values", .arr (v.map (fun o => match o with
+          | some (n : Int) => ratToJson (n : Rat) | none => Json.null)).toArray)]
+      | .float v => Json.mkObj [("dtype", .str "float"), ("values", .arr (v.map (fun o => match o with
+          | some q => ratToJson q | none => Json.null)).toArray)]
+      | .typeError => Json.mkObj [("dtype", .str "TypeError")]
+    pure (Json.mkObj [("lib", colJson (MD.Ser.seriesFromValues elems)), ("strict", colJson (MD.Ser.strictSeries elems)),
+      ("nonstrict", colJson (MD.Ser.nonStrictSeries elems))])
   | "gpava_arr" =>
     -- the in-place array program of gpava (MD/Model/GpavaArr.lean) with the functional named by "f"
     let f ← getStr j "f"
